@@ -62,6 +62,7 @@ class _JitterSpy:
     def __init__(self):
         self.calls = 0
         self.jittered = 0
+        self.total = 0          # never reset
 
     def reset(self):
         self.calls = 0
@@ -76,6 +77,7 @@ def _spy_add_jitter(inputs, *a, **kw):
     out = _orig_add_jitter(inputs, *a, **kw)
     iv, ov = getval(inputs), getval(out)
     SPY.calls += 1
+    SPY.total += 1
     if float(ov[0, 0]) != float(iv[0] + iv[-1]):
         SPY.jittered += 1
     return out
@@ -250,3 +252,21 @@ class AcqProblem:
 
     def inputs(self):
         return [np.array(p, dtype=float) for p in itertools.product(INPUT_LEVELS, repeat=self.cfg["d"])]
+
+
+def spy_self_test():
+    """Duplicate inputs and zero noise: the Cholesky factorisation must fail once and jitter must be added."""
+    from syne_tune.optimizer.schedulers.searchers.bayesopt.gpautograd.posterior_state import GaussProcPosteriorState
+    k = Matern52(1, ARD=False)
+    k.initialize(force_reinit=True)
+    X = np.array([[0.3], [0.3], [0.3]])
+    SPY.reset()
+    GaussProcPosteriorState(features=X, targets=np.zeros((3, 1)), mean=ZeroMeanFunction(), kernel=k,
+                            noise_variance=np.array([0.0]))
+    ok_jit = SPY.calls == 1 and SPY.jittered == 1
+    SPY.reset()
+    GaussProcPosteriorState(features=X, targets=np.zeros((3, 1)), mean=ZeroMeanFunction(), kernel=k,
+                            noise_variance=np.array([0.1]))
+    ok_nojit = SPY.calls == 1 and SPY.jittered == 0
+    SPY.reset()
+    return ok_jit and ok_nojit
